@@ -48,10 +48,24 @@ def new_interp(prog):
         raise Inconclusive('Sleep polled after completion')
     I.hooks['poll_sleep'] = poll_sleep
 
-    @I.model(r'^tokio::time::interval$', 'tokio::time::interval (ticks at start + k*period, first immediately)')
+    @I.model(r'^tokio::time::interval$', 'tokio::time::interval (tick k is due at start + k*period, the first immediately; default MissedTickBehavior::Burst)')
     def m_interval(I, st, f, args, fr):
         st.emit('INTERVAL_NEW', args[0].fields[0])
+        st.ghost['interval'] = {'behavior': 'Burst', 'drift': I.mk_int(0, 'u64')}
         return I.ret(st, Agg('Interval', (args[0], I.mk_int(0, 'usize'))))
+
+    @I.model(r'(^|::)Interval::set_missed_tick_behavior$', 'Interval::set_missed_tick_behavior (tokio contract: Burst keeps deadlines on the grid; Delay re-anchors the next deadline at the late '
+             'poll time + period; Skip jumps to a later grid point)')
+    def m_missed(I, st, f, args, fr):
+        b = args[1]
+        name = b.variant if isinstance(b, Enum) else (b.ty.split('::')[-1] if isinstance(b, Agg) else None)
+        if name not in ('Burst', 'Delay', 'Skip'):
+            raise Unmodelled('MissedTickBehavior %r' % (b,))
+        g = dict(st.ghost.get('interval') or {'drift': I.mk_int(0, 'u64')})
+        g['behavior'] = name
+        st.ghost['interval'] = g
+        st.emit('INTERVAL_BEHAVIOR', name)
+        return I.ret(st, UNIT)
 
     @I.model(r'^tokio::time::Interval::tick$|^Interval::tick$', 'Interval::tick (future)')
     def m_tick(I, st, f, args, fr):
@@ -71,7 +85,18 @@ def new_interp(prog):
                 st.emit('TICK_WAIT', k)
                 return [Outcome(st, 'ret', models_std.PENDING)]
             I.write(st, r.cell, r.path, Agg('Interval', (iv.fields[0], I.mk_int(k + 1, 'usize'))))
-            st.emit('TICK', k)
+            # the executor may poll the tick late by any amount: how far the deadline of this tick has moved off start + k*period so far
+            g = dict(st.ghost.get('interval') or {'behavior': 'Burst', 'drift': I.mk_int(0, 'u64')})
+            st.emit('TICK', k, g['drift'])
+            late = I.fresh_int('late_poll_%d' % k, 'u64', st)
+            st.assume(z3.ULT(late.t, 1 << 40))
+            if g['behavior'] == 'Delay':
+                g['drift'] = Sc(g['drift'].t + late.t, 'u64')
+            elif g['behavior'] == 'Skip':
+                sk = I.fresh_int('skipped_%d' % k, 'u64', st)
+                st.assume(z3.ULE(sk.t, late.t))
+                g['drift'] = Sc(g['drift'].t + sk.t, 'u64')
+            st.ghost['interval'] = g
             return [Outcome(st, 'ret', models_std.ready(Agg('Instant', (I.mk_int(0, 'u128'),))))]
         return prev(I, st, v, cell, path, cx, fr) if prev else None
     I.hooks['poll_other'] = poll_other
@@ -277,6 +302,12 @@ def check_interval(ctx, prog, which='send_interval'):
         elif seq:
             shape_ok = False
         claims['each_message_follows_exactly_one_new_tick_and_a_status_check'] = shape_ok
+        # no drift: whatever the lateness of earlier polls, tick k stays due at start + k*period
+        for e in tr:
+            if e[0] == 'TICK' and len(e) > 2:
+                ctx.prove('%s.tick%d_due_at_k_periods' % (name, e[1]), s.pc, e[2].t == 0, group='C12.%s.no_drift' % which, key='C12.%s.no_drift' % which,
+                          sample={'function': which, 'claim': 'deadline(tick k) - (start + k*period) == 0 for every lateness of the earlier polls'} if e[1] == 2 else None,
+                          on_cex=lambda m: replay(which))
         n_sent = max(n_sent, sends)
         if kind == 'ready':
             # the loop ends only because the target left the active states or a send failed
